@@ -65,6 +65,16 @@ def gen_lp(rng, i):
         if rng.random() < 0.3:   # duplicated mapping row; only the first row's flag counts (optimization.py:221)
             mp.append({'index': j, 'asset': 'a', 'node': 'M', 'type': 'd', 'time_step': j % 3, 'disp_factor': 0.5,
                        'var_name': 'v', 'bool': (j in bools) if rng.random() < 0.7 else (j not in bools)})
+    if rng.random() < 0.3:
+        # a variable without any mapping row (zero cost, in no row) somewhere in front: positions in the mapping are no variable numbers then
+        j0 = rng.randint(0, max(0, n - 2))
+        c.insert(j0, 0.0); l.insert(j0, 0.0); u.insert(j0, 1.0); x0.insert(j0, 0.0)
+        rows = [[[j + 1 if j >= j0 else j for j in cols], vals] for cols, vals in rows]
+        bools = [j + 1 if j >= j0 else j for j in bools]
+        for r in mp:
+            if r['index'] >= j0:
+                r['index'] += 1
+        n += 1
     lp = {'c': c, 'l': l, 'u': u, 'rows': rows, 'b': b, 'cType': ct, 'mapping': mp}
     sp = {'id': 'lp%d' % i, 'seed': 'lp%d' % i, 'lp': lp, 'opts': {}}
     r = rng.random()
@@ -119,8 +129,54 @@ def run(ctx):
     for sp in specs[::3]:
         # the relaxed problem is solved first on the same object; the regular solve afterwards must still be a MIP solve
         sp['opts']['solvers'] = [{'make_soft_problem': True}] + solvers
+    ob = gen.gen_many(ctx.seed, n // 3, dict(CFG, p_full_exec=1.0, kinds={'OrderBook': 4, 'SimpleContract': 2}), 'c03ob_')
+    for sp in ob:
+        pts = gen.grid_points(sp['grid'])
+        st = gen.freq_td(sp['grid']['freq'])
+        for a in sp['assets']:
+            if a['kind'] == 'OrderBook':
+                o_ = a['orders']
+                o_['start'].insert(0, gen.fmt(pts[0] - 5 * st)); o_['end'].insert(0, gen.fmt(pts[0] - 2 * st)); o_['capa'].insert(0, 2.0); o_['price'].insert(0, 1.0)
+        sp['opts']['solvers'] = solvers
+    specs += ob
     specs = ctx.specs(specs)
     res = C.run_impl('optim', specs)
+    # ---- split optimisation of portfolios with binary variables: the concatenated result against the direct sum of the interval problems
+    spl = gen.gen_many(ctx.seed, n // 2, dict(CFG, p_coarse=0.0, p_periodic=0.0, p_full_exec=0.8, p_no_simult=0.6, freqs=['h'], T=(6, 9),
+                                              kinds={'OrderBook': 3, 'Storage': 3, 'SimpleContract': 2, 'Transport': 1}), 'c03s_')
+    for sp in spl:
+        sp['opts']['split'] = '3h'
+    spl = [sp for sp in ctx.specs(spl) if 'split' in sp.get('opts', {})]
+    sexprs, sowners = [], []
+    for sp, o in zip(spl, C.run_impl('portfolio', spl) if spl else []):
+        sr = o.get('split') if o.get('status') == 'ok' else None
+        if not isinstance(sr, dict) or 'setup_error' in sr:
+            continue
+        ctx.count('split solve:' + str(sr.get('solve')))
+        if sr.get('solve') != 'optimal':
+            continue
+        rows, ct, bb, cc, ll, uu, bools, off = [], '', [], [], [], [], [], 0
+        for p_ in sr['ops']:
+            for r in p_['rows']:
+                rows.append([[j + off for j in r[0]], r[1]])
+            ct += p_['cType']; bb += p_['b']; cc += p_['c']; ll += p_['l']; uu += p_['u']
+            seen_ = set()
+            for m in p_['mapping']:
+                if m['index'] not in seen_:
+                    seen_.add(m['index'])
+                    if m['bool']:
+                        bools.append(m['index'] + off)
+            off += len(p_['c'])
+        big = {'c': cc, 'l': ll, 'u': uu, 'rows': rows, 'b': bb, 'cType': ct}
+        eps = 2e-6 * (1 + abs(sr['value']) + max([abs(v) for v in bb] + [0]))
+        sexprs.append('(c03_case %s %s %s %s %s %s)' % (C.lp(big), C.qvec(sr['x']), C.qvec([0.0] * len(bb)), C.q(sr['value']), C.q(eps), C.lst([C.nat(j) for j in bools])))
+        sowners.append(sp)
+    for sp, v in zip(sowners, C.run_coq_exprs('C03s', 'Num LP Cert Mapping Dcf Corr', sexprs, chunk=6)):
+        ctx.cov['instances_validated'] += 1
+        for k, nm in ((0, 'returned x within bounds and rows (eps)'), (1, 'reported value = -c.x'), (3, 'boolean flags are 0/1')):
+            if not v[k]:
+                ctx.violation('validator-rejected', {'spec': sp, 'mode': 'split', 'expected': nm, 'theorem_or_correspondence': 'Cert.' + ['check_primal_eps', 'value', 'check_opt', 'bools'][k]},
+                              trigger={'what': 'split: ' + nm})
     exprs, owners = [], []
     fexprs, fowners = [], []
     texprs, towners = [], []
